@@ -140,8 +140,9 @@ func sxStrs(l []string) string {
 
 // ---------- prefix maps ----------
 
-var globals = []string{"derive", "d", "my", "generate", "deriveX", "X_", "derived", "gen_", "D", "", "deriv", "goderive", "go", "type", "derive_"}
-var fresh = []string{"eq", "cmp", "hsh", "srt", "fm", "ky", "st", "mn", "mx", "uq", "ct", "cpy", "zz", "mak", "map", "select", "range", "func", "sameStruct", "orderingOf", "hashCodeOf", "sortedCopyOf", "uniqueValuesOf"}
+var globals = []string{"derive", "d", "my", "generate", "deriveX", "X_", "derived", "gen_", "D", "", "deriv", "goderive", "go", "type", "derive_", "Derive", "Gen", "Ünit"}
+var fresh = []string{"eq", "cmp", "hsh", "srt", "fm", "ky", "st", "mn", "mx", "uq", "ct", "cpy", "zz", "mak", "map", "select", "range", "func", "sameStruct", "orderingOf", "hashCodeOf", "sortedCopyOf", "uniqueValuesOf",
+	"Eq", "HashOf", "Sorted", "Éq", "ñ", "Ωmega"}
 var exts = []string{"X", "Of", "_", "2", "s", "ed", "Set", "All"}
 
 // genConfig draws a prefix map. minCut is the shortest cut used for nesting overrides.
@@ -155,6 +156,8 @@ func genConfig(r *hx.Rand, t *Table, kind string, minCut int) config {
 	case "global":
 		c.Global = globals[1+r.Intn(len(globals)-1)]
 		return c
+	case "reuse":
+		return genReuse(r, t)
 	case "mixed":
 		if r.Intn(2) == 0 {
 			c.Global = globals[r.Intn(len(globals))]
@@ -202,6 +205,54 @@ func genConfig(r *hx.Rand, t *Table, kind string, minCut int) config {
 			continue
 		}
 		c.Overrides = append(c.Overrides, [2]string{names[i], v})
+	}
+	return c
+}
+
+// genReuse draws a map whose FINAL prefixes are pairwise different although plugins are given prefixes that
+// other plugins have by default: a swap, a longer cycle, a chain (x takes y's default prefix, y moves to a
+// fresh one), in either direction of the registration order, and - under a global prefix - an override to
+// the literal default prefix (derive...) of a plugin that the global prefix moves away.  Whether a map is
+// ambiguous is a question about the final prefixes only.
+func genReuse(r *hx.Rand, t *Table) config {
+	c := config{Global: "derive", Kind: "reuse"}
+	mode := r.Intn(4)
+	if mode == 3 {
+		c.Global = []string{"gen", "my", "d", "generate", "Derive", "derived"}[r.Intn(6)]
+	}
+	eff := effective(t, c)
+	k := 2 + r.Intn(3)
+	if mode == 0 {
+		k = 2
+	}
+	idx := make([]int, len(eff))
+	for i := range idx {
+		idx[i] = i
+	}
+	hx.Shuffle(r, idx)
+	idx = idx[:k]
+	switch mode {
+	case 0, 1: // swap / cycle
+		for i, x := range idx {
+			c.Overrides = append(c.Overrides, [2]string{eff[x].Name, eff[idx[(i+1)%k]].Prefix})
+		}
+	case 2: // chain: the last one moves to a fresh prefix
+		for i, x := range idx {
+			v := fresh[r.Intn(len(fresh))] + "Z"
+			if i+1 < k {
+				v = eff[idx[i+1]].Prefix
+			}
+			c.Overrides = append(c.Overrides, [2]string{eff[x].Name, v})
+		}
+	case 3: // the literal default prefix of a plugin that the global prefix has moved
+		for i, x := range idx {
+			if i+1 < k {
+				c.Overrides = append(c.Overrides, [2]string{eff[x].Name, t.Plugins[idx[i+1]].Prefix})
+			}
+		}
+	}
+	if r.Intn(2) == 0 { // the order of the pairs in the flag does not matter either
+		hx.Shuffle(r, c.Overrides)
 	}
 	return c
 }
@@ -274,7 +325,7 @@ func (s *state) sortObs(r *hx.Rand, n int) {
 	}
 	// the real table, as registered and in seeded permutations, under prefix maps
 	for k := 0; k < n; k++ {
-		kind := []string{"global", "plain", "nested", "mixed"}[k%4]
+		kind := []string{"global", "plain", "nested", "mixed", "reuse"}[k%5]
 		c := genConfig(r, t, kind, 1)
 		if k == 0 {
 			c = config{Global: "derive"}
@@ -441,37 +492,7 @@ func (s *state) runBattery(w *worker, bin string, b *battery, c config, label st
 		s.direct("renamed-run-unparsable", "derived.gen.go of the renamed run does not parse under ["+c.String()+"]", files, cmd, err.Error())
 		return
 	}
-	// helpers (functions no call site names) carry the prefix of the plugin that minted them, which under
-	// nesting need not be the longest matching prefix: attribute them to a matching plugin that has this
-	// signature in the default run
-	if nested(eff) {
-		userName := map[string]bool{}
-		for _, n := range names {
-			userName[n] = true
-		}
-		defKeys := map[string]bool{}
-		for _, g := range b.defCan.Funcs {
-			defKeys[g.Key] = true
-		}
-		attrib := map[string]string{}
-		for _, g := range o.Funcs {
-			if userName[g.Name] || defKeys[g.Key] {
-				continue
-			}
-			for _, cand := range candidates(eff, g.Name) {
-				if defKeys[cand+sigOf(g.Key)] {
-					attrib[g.Name] = cand
-					break
-				}
-			}
-		}
-		if len(attrib) > 0 {
-			if o2, err := parseOutput(out, eff, attrib); err == nil {
-				o = o2
-				s.meta.CountSafe("battery/helper-attributed-to-shorter-prefix")
-			}
-		}
-	}
+	o = s.attributeHelpers(o, out, eff, names, b.defCan)
 	// one name, two functions: a helper minted by one plugin (prefix_...) collides with a name of a plugin
 	// whose prefix extends that prefix by "_..."
 	seenFn := map[string]bool{}
@@ -512,6 +533,42 @@ func (s *state) runBattery(w *worker, bin string, b *battery, c config, label st
 	}
 	s.mintObs(o, eff, names)
 	s.meta.Sample(fmt.Sprintf("%s: %d calls, %d functions, [%s] -> same classes and bodies as the default run", label, len(names), len(o.Funcs), c.String()))
+}
+
+// attributeHelpers: helpers (functions no call site names) carry the prefix of the plugin that minted them,
+// which under nesting need not be the longest matching prefix: attribute them to a matching plugin that has
+// this signature in the default run.
+func (s *state) attributeHelpers(o *output, out []byte, eff []Plugin, names []string, defCan *output) *output {
+	if !nested(eff) {
+		return o
+	}
+	userName := map[string]bool{}
+	for _, n := range names {
+		userName[n] = true
+	}
+	defKeys := map[string]bool{}
+	for _, g := range defCan.Funcs {
+		defKeys[g.Key] = true
+	}
+	attrib := map[string]string{}
+	for _, g := range o.Funcs {
+		if userName[g.Name] || defKeys[g.Key] {
+			continue
+		}
+		for _, cand := range candidates(eff, g.Name) {
+			if defKeys[cand+sigOf(g.Key)] {
+				attrib[g.Name] = cand
+				break
+			}
+		}
+	}
+	if len(attrib) > 0 {
+		if o2, err := parseOutput(out, eff, attrib); err == nil {
+			s.meta.CountSafe("battery/helper-attributed-to-shorter-prefix")
+			return o2
+		}
+	}
+	return o
 }
 
 func firstDiff(a, b string) string {
@@ -677,7 +734,7 @@ func Run(cfg hx.Config) (*hx.Meta, error) {
 	}
 	var jobs []job
 	rb := r.Fork(2)
-	kinds := []string{"global", "plain", "nested", "nested", "mixed"}
+	kinds := []string{"global", "plain", "nested", "nested", "mixed", "reuse"}
 	var cfgs []config
 	cfgs = append(cfgs, config{Global: "derive", Kind: "default"})
 	cfgs = append(cfgs, corpus...)
@@ -749,6 +806,31 @@ func Run(cfg hx.Config) (*hx.Meta, error) {
 	wg.Wait()
 	meta.Distribution["dispatch-probes"] = len(jobs)
 
+	// B2: argument probes (the longest match refuses, a shorter match would accept)
+	{
+		bins := []argBin{{cfg.Goderive, tbl.Plugins}, {cfg.Goderive, tbl.Plugins}}
+		for _, p := range perms {
+			bins = append(bins, argBin{p.bin, p.tbl})
+		}
+		nB := 5
+		if thorough {
+			nB = len(tbl.Plugins)
+		}
+		ajobs := s.argJobs(r.Fork(5), cfgs, bins, nB)
+		cache := &argCache{m: map[string]*argOutcome{}}
+		for wi := 0; wi < W; wi++ {
+			wg.Add(1)
+			go func(wi int) {
+				defer wg.Done()
+				for i := wi; i < len(ajobs); i += W {
+					s.argProbe(workers[wi], cache, ajobs[i])
+				}
+			}(wi)
+		}
+		wg.Wait()
+		meta.Distribution["argument-probes"] = len(ajobs)
+	}
+
 	// C: battery
 	rc := r.Fork(4)
 	var bats []*battery
@@ -768,7 +850,7 @@ func Run(cfg hx.Config) (*hx.Meta, error) {
 		label string
 	}
 	var bjobs []bjob
-	fixedGlobals := []string{"d", "generate", "deriveX", "my", "", "go", "derived"}
+	fixedGlobals := []string{"d", "generate", "deriveX", "my", "", "go", "derived", "Derive", "Ünit"}
 	for bi, b := range bats {
 		for gi, g := range fixedGlobals {
 			if !thorough && (gi+bi)%2 == 1 && bi > 0 {
@@ -780,7 +862,7 @@ func Run(cfg hx.Config) (*hx.Meta, error) {
 			bjobs = append(bjobs, bjob{b, c, cfg.Goderive, "corpus"})
 		}
 		for k := 0; k < nBatCfg; k++ {
-			kind := []string{"plain", "nested", "nested", "mixed", "global"}[k%5]
+			kind := []string{"plain", "nested", "reuse", "nested", "mixed", "global", "reuse"}[k%7]
 			c := genConfig(rc, tbl, kind, 3)
 			if !distinct(effective(tbl, c)) {
 				continue
